@@ -9,6 +9,7 @@ import (
 	"verif/internal/bed"
 	"verif/internal/ev"
 	"verif/internal/imapc"
+	"verif/internal/kf"
 	"verif/internal/mach"
 )
 
@@ -100,4 +101,67 @@ func tail(h *imapc.History, n int) string {
 	}
 
 	return out
+}
+
+// known C02-own-removal-overtakes-queued-addition.
+func TestKnown_C02_own_removal_overtakes_queued_addition(t *testing.T) {
+	b, err := bed.Start(bed.Options{}, bed.UserSpec{Name: "user", Pass: "pass"})
+	if err != nil {
+		t.Fatal(err)
+	}
+
+	defer b.Destroy()
+
+	u := b.Users[0]
+
+	s, err := b.Login("s", u)
+	if err != nil {
+		t.Fatal(err)
+	}
+
+	defer s.Logout()
+
+	if r := s.Do("CREATE A"); !r.OK() {
+		t.Fatal(r)
+	}
+
+	m, mc, _ := u.Conn.NewRemoteMessage(mach.Msg("g", ""), imap.NewFlagSet(), time.Unix(1600000000, 0), u.Inbox.ID)
+	b.DeliverNow(u, imap.NewMessagesCreated(false, mc))
+
+	s.Select("INBOX", false)
+	s.GateClose()
+
+	b.DeliverNow(u, imap.NewMessageMailboxesUpdated(m.ID, nil, imap.NewFlagSet()))
+	b.DeliverNow(u, imap.NewMessageMailboxesUpdated(m.ID, []imap.MailboxID{u.Inbox.ID}, imap.NewFlagSet()))
+
+	if r := s.Do("MOVE 1 A"); !r.OK() {
+		t.Fatal(r)
+	}
+
+	s.Release(-1)
+
+	if err := b.Barrier(u); err != nil {
+		t.Fatal(err)
+	}
+
+	s.Do("NOOP")
+
+	var view []bed.PMsg
+
+	if _, err := s.Probe(func(m []bed.PMsg) error { view = m; return nil }); err != nil {
+		t.Fatal(err)
+	}
+
+	fresh, _, _, _, err := b.FreshView(u, "INBOX", false)
+	if err != nil {
+		t.Fatal(err)
+	}
+
+	if len(view) == len(fresh) {
+		return // no longer reproduces
+	}
+
+	if !kf.Report(mach.KfOwnRemovalOvertakes) {
+		t.Fatalf("C05/C02 violated (own removal overtakes queued addition, not listed as known): session sees %v, a new session sees %v\n%s", view, fresh, b.Hist)
+	}
 }
